@@ -108,6 +108,21 @@ def c15(work, tier, seed, replay):
     open(sp, "w").write("\n".join(scen) + "\n")
     o, dt = run_driver(["dist", "-in", sp, "-out", tp, "-seed", str(seed), "-workers", str(NCPU)], timeout=3000)
     rep.notes.append(o.strip())
+    # the distributor as an operator gets it: inside omniwitness.Main, round after round at the distribute interval, with answers that take several
+    # intervals ("slow200"), fail, or are fine; some logs without a checkpoint yet
+    V, M = "valid", "missing"
+    main_scens = [([V, V, V], ["slow200", "200", "200"]), ([V, V, V], ["200", "slow200", "200"]), ([V, V, V], ["500", "200", "slow200"]), ([M, V, V], ["200", "200", "200"]),
+                  ([V, M, V], ["slow200", "200", "200"])]
+    if tier != "quick":
+        import itertools
+        main_scens = [([V, V, V], list(d_)) for d_ in itertools.product(["200", "500", "slow200"], repeat=3)] + [([M, V, V], ["200", "slow200", "200"]), ([V, M, V], ["slow200", "200", "500"])]
+    mp, mt = work.path("dist-main.jsonl"), work.path("dist-main.ndjson")
+    open(mp, "w").write("\n".join(json.dumps({"wit": w_, "dist": d_}) for w_, d_ in main_scens) + "\n")
+    o, dt = run_driver(["dist-main", "-in", mp, "-out", mt, "-seed", str(seed)], timeout=3000)
+    rep.notes.append(o.strip())
+    with open(tp, "a") as f_:
+        f_.write(open(mt).read())
+    rep.cov["runs_inside_omniwitness_Main"] = len(main_scens)
     events = read_ndjson(tp)
     jr = tlc(work, "MC_Trace_Dist", cfg_text(spec="TSpec", constants={"NLogs": 1, "TraceFile": tp}, action_constraints=["Monitor"], postcondition="Done"),
              name="judge-dist", workers=1, timeout=3600, heap="12g")
